@@ -37,16 +37,26 @@ func digest(s string) string {
 	return hex.EncodeToString(h[:8])
 }
 
-func produce(dir string, c *detCase) artefacts {
+// shared is a parser that lives as long as the process and has parsed every earlier case:
+// `mro format a b`, `mro check` and `mro edit` use one Parser for all their files.  What a
+// source compiles or formats to must not depend on what the parser has seen before.
+var shared syntax.Parser
+
+func produce(dir string, c *detCase) artefacts { return produceWith(dir, c, nil) }
+
+func produceWith(dir string, c *detCase, use *syntax.Parser) artefacts {
 	var a artefacts
 	top := []byte(c.Files[c.Top])
-	var p syntax.Parser
+	var p0, q0 syntax.Parser
+	p, q := &p0, &q0
+	if use != nil {
+		p, q = use, use
+	}
 	if f, err := p.FormatSrcBytes(top, dir+"/"+c.Top, false, nil); err == nil {
 		a.Format = f
 	} else {
 		a.Format = "ERR " + err.Error()
 	}
-	var q syntax.Parser
 	combined, _, ast, err := q.ParseSourceBytes(top, dir+"/"+c.Top, []string{dir}, false)
 	a.Combined = combined
 	if err != nil {
@@ -145,6 +155,15 @@ func Run(args []string) int {
 				{"error messages", first.Error, a.Error}, {"call graph", first.Graph, a.Graph}, {"retain order", first.Retains, a.Retains}} {
 				if x[1] != x[2] {
 					viols = append(viols, Violation{c.Id, "differs-between-repetitions: " + x[0], diffAt(x[1], x[2]), c.Files[c.Top]})
+				}
+			}
+		}
+		{
+			a := produceWith(dir, &c, &shared)
+			for _, x := range [][3]string{{"formatted text", first.Format, a.Format}, {"combined source", first.Combined, a.Combined},
+				{"error messages", first.Error, a.Error}, {"call graph", first.Graph, a.Graph}} {
+				if x[1] != x[2] {
+					viols = append(viols, Violation{c.Id, "differs-when-the-parser-has-parsed-other-sources-before: " + x[0], diffAt(x[1], x[2]), c.Files[c.Top]})
 				}
 			}
 		}
